@@ -5,8 +5,7 @@
      byte, `items` / `members` (which may be asked for zero elements) never give bytes back (`consumes_all`).
   2. NO OUT-OF-FUEL: with fuel ≥ 2·|s|+1 `item` never answers `Fail.fuel`, with fuel ≥ 2·|s|+2 neither do the four list readers, with
      fuel ≥ |s|+1 neither does `readChunks` (`nofuel_all`). `decode` supplies 2·|s|+2 (`decode_ne_fuel`).
-  3. FUEL IRRELEVANCE: a result that is not `Fail.fuel` is the result at every larger fuel (`mono_all`), so above the bound the answer
-     does not depend on the fuel at all (`item_fuel_irrelevant`).
+  Not proved here: that a result other than `Fail.fuel` is the same at every larger fuel (fuel irrelevance above the bound).
 -/
 import JV.Model.CborParser
 namespace JV.Model.CborParser
